@@ -1000,7 +1000,12 @@ class Sense(_Relatable):
             Word('pwn-spigot-n')
 
         """
-        return self._wordnet.word(id=self._entry_id)
+        lexids = self._home_lexicon_ids()
+        iterable = find_entries(id=self._entry_id, lexicon_rowids=lexids)
+        try:
+            return Word(*next(iterable), self._wordnet)
+        except StopIteration:
+            raise wn.Error(f'no such lexical entry: {self._entry_id}') from None
 
     def synset(self) -> Synset:
         """Return the synset of the sense.
@@ -1011,7 +1016,20 @@ class Sense(_Relatable):
             Synset('pwn-03325088-n')
 
         """
-        return self._wordnet.synset(id=self._synset_id)
+        lexids = self._home_lexicon_ids()
+        iterable = find_synsets(id=self._synset_id, lexicon_rowids=lexids)
+        try:
+            return Synset(*next(iterable), _wordnet=self._wordnet)
+        except StopIteration:
+            raise wn.Error(f'no such synset: {self._synset_id}') from None
+
+    def _home_lexicon_ids(self) -> tuple[int, ...]:
+        # The word and synset of a sense are declared by the sense's own
+        # lexicon or, for a sense added by an extension, by one of the
+        # lexicons it extends; entity ids are only unique within those,
+        # so do not search other lexicons that happen to reuse an id.
+        home = {self._lexid, *get_lexicon_extension_bases(self._lexid)}
+        return tuple(i for i in self._wordnet._lexicon_ids if i in home) or (NON_ROWID,)
 
     def examples(self) -> list[str]:
         """Return the list of examples for the sense."""
